@@ -10,6 +10,7 @@ import (
 	"regexp"
 	"strconv"
 	"strings"
+	"sync"
 
 	"github.com/Eyevinn/mp4ff/mp4"
 
@@ -149,6 +150,8 @@ func run(c *lib.Ctx) error {
 	var terms []string
 	var ins []c01in
 	var obs []lib.SegObs
+	var lsOf []*lib.Livesim
+	var repOf []*lib.TLRep
 	distinct := map[string]bool{}
 	nWraps := int64(3)
 	nCfg := 4
@@ -253,6 +256,8 @@ func run(c *lib.Ctx) error {
 						id := len(ins)
 						ins = append(ins, in)
 						obs = append(obs, o)
+						lsOf = append(lsOf, ls)
+						repOf = append(repOf, r)
 						c.Res.Inputs[fmt.Sprint(id)] = in
 						c.Count(r.Kind + "/" + mode)
 						var p *lib.SegObs
@@ -336,6 +341,51 @@ func run(c *lib.Ctx) error {
 	}
 	defer cleanup()
 	runAssets("g", gls, gAssets, layouts)
+	// the same requests again, many at a time: what a segment carries must not depend on which other requests
+	// are being served (buffers handed back too early, state shared between requests)
+	{
+		var pick []int
+		for i := range ins {
+			if obs[i].Status == 200 && ins[i].Cfg.AtoMS <= 0 {
+				pick = append(pick, i)
+			}
+		}
+		rng.Shuffle(len(pick), func(a, b int) { pick[a], pick[b] = pick[b], pick[a] })
+		nConc := 1500
+		if c.Thorough() {
+			nConc = 12000
+		}
+		if len(pick) > nConc {
+			pick = pick[:nConc]
+		}
+		type diff struct {
+			i    int
+			what string
+		}
+		diffs := make(chan diff, len(pick))
+		var wg sync.WaitGroup
+		sem := make(chan struct{}, 24)
+		for _, i := range pick {
+			wg.Add(1)
+			sem <- struct{}{}
+			go func(i int) {
+				defer wg.Done()
+				defer func() { <-sem }()
+				o := lib.ObserveSeg(lsOf[i].GetRaw(ins[i].URL), repOf[i])
+				identifyStpp(repOf[i], &o)
+				if o.Status != obs[i].Status || o.Tfdt != obs[i].Tfdt || o.Seq != obs[i].Seq || o.Payload != obs[i].Payload || len(o.Body) != len(obs[i].Body) {
+					diffs <- diff{i, fmt.Sprintf("%s served concurrently with other requests: status %d tfdt %d seq %d payload %.12s (%d bytes); served alone: status %d tfdt %d seq %d payload %.12s (%d bytes)",
+						ins[i].URL, o.Status, o.Tfdt, o.Seq, o.Payload, len(o.Body), obs[i].Status, obs[i].Tfdt, obs[i].Seq, obs[i].Payload, len(obs[i].Body))}
+				}
+			}(i)
+		}
+		wg.Wait()
+		close(diffs)
+		c.Res.Distribution["concurrent-repeat"] = len(pick)
+		for d := range diffs {
+			c.Fail(fmt.Sprint(d.i), "concurrent:differs", d.what, ins[d.i])
+		}
+	}
 	c.Res.Evaluations = len(ins)
 	c.Res.DistinctNontrivial = len(distinct)
 	c.Res.Notes = append(c.Res.Notes, pairs.Summary())
